@@ -695,11 +695,75 @@ func trueReturnsPassStore(h *ssa.Function, idx int, always map[*ssa.Function]boo
 				}
 			}
 		}
-		if !dom {
+		if !dom && !correlatedStore(h, b, always) {
 			return false
 		}
 	}
 	return found
+}
+
+// correlatedStore: the block is only reached under a condition value V (it is dominated by the V-edge of a branch), and an
+// earlier branch on the very same value V passed an always-call on every path of its V-side: `if imported { store }` …
+// `if !imported { return false }; return true`.
+func correlatedStore(h *ssa.Function, ret *ssa.BasicBlock, always map[*ssa.Function]bool) bool {
+	type edge struct {
+		from *ssa.BasicBlock
+		cond ssa.Value
+		idx  int
+	}
+	var edges []edge
+	for _, b := range h.Blocks {
+		if len(b.Instrs) == 0 {
+			continue
+		}
+		if iff, ok := b.Instrs[len(b.Instrs)-1].(*ssa.If); ok {
+			for i := 0; i < 2; i++ {
+				edges = append(edges, edge{b, iff.Cond, i})
+			}
+		}
+	}
+	for _, e2 := range edges {
+		s2 := e2.from.Succs[e2.idx]
+		if len(s2.Preds) != 1 || !(s2 == ret || s2.Dominates(ret)) {
+			continue
+		}
+		for _, e1 := range edges {
+			if e1.cond != e2.cond || e1.idx != e2.idx || e1.from == e2.from || !e1.from.Dominates(e2.from) {
+				continue
+			}
+			s1 := e1.from.Succs[e1.idx]
+			if len(s1.Preds) != 1 {
+				continue
+			}
+			// every path from s1 to the second branch passes an always-call
+			seen := map[*ssa.BasicBlock]bool{}
+			var visit func(b *ssa.BasicBlock) bool
+			visit = func(b *ssa.BasicBlock) bool {
+				for _, in := range b.Instrs {
+					if call, ok := in.(*ssa.Call); ok && always[call.Common().StaticCallee()] {
+						return true
+					}
+				}
+				if b == e2.from {
+					return false
+				}
+				for _, s := range b.Succs {
+					if seen[s] {
+						continue
+					}
+					seen[s] = true
+					if !visit(s) {
+						return false
+					}
+				}
+				return len(b.Succs) > 0
+			}
+			if visit(s1) {
+				return true
+			}
+		}
+	}
+	return false
 }
 
 // ---------------------------------------------------------------------------------------------------------
